@@ -202,7 +202,7 @@ pub enum WorldObs {
 }
 
 pub const AMBIG_RENDER: &str =
-    r"Ambiguous[^ambig-(step|bg|rbg) (\S+) (\d+)$@1 | ^ambig-(step|bg|rbg) (\S+) (\d+)$@2 | ^ambig-\S+ .*$]";
+    r"Ambiguous[^a?ambig-(step|bg|rbg) (\S+) (\d+)$@1 | ^a?ambig-(step|bg|rbg) (\S+) (\d+)$@2 | ^ambig-x?\S+ .*$]";
 
 pub fn panic_payload(o: Outcome, key: &str, inv: usize) -> String {
     match o {
